@@ -8,7 +8,7 @@ FILES_H = ["ks/zz_verif_ks_common_test.go", "C04/zz_verif_c04h_test.go"]
 HDR_H = HDR.format(imports="model.C04_model model.C04_run") + "Local Open Scope Z_scope.\n"
 
 
-from .ks_instr import instrument as _instrument, replace_env as _replace  # noqa: E402
+from .ks_instr import instrument as _instrument, instrumented_overlay, replace_env as _replace  # noqa: E402
 
 
 def stage_h(ctx, n, suffix="", off=0, extra_env=None):
@@ -82,8 +82,9 @@ def stage_i(ctx, per_scenario, suffix="", off=0):
     json.dump(chosen, open(jf, "w"))
     rep = dict(_replace())
     rep[UV] = inst
-    st = ctx.stage(name, KS, "main", FILES_I, "TestVerifC04I$", len(chosen), HDR_I, seed_offset=off, shard=150,
-                   env={"VERIF_STAGE": name, "VERIF_C04I_SCHEDULES": jf}, timeout=2400, replace=rep)
+    with instrumented_overlay():
+        st = ctx.stage(name, KS, "main", FILES_I, "TestVerifC04I$", len(chosen), HDR_I, seed_offset=off, shard=150,
+                       env={"VERIF_STAGE": name, "VERIF_C04I_SCHEDULES": jf}, timeout=2400, replace=rep)
     st.meta.setdefault("distribution", {})["schedules_enumerated_by_model"] = total
     return st
 
